@@ -5,7 +5,7 @@ from model import (dstr, strip, fact_holds, mentions_field, mentions_call, menti
 from rules import (guarded, calls_to, field_writes, who_may_write, who_may_call, full_range,
                    loops_over, every_iteration_passes, basename, origins, is_var, is_enum,
                    lastname, dominated_by, must_pass, reached_only_via, skip_conditions_exact)
-from props.scan_common import check_cc, ts_comparisons, true_succ
+from props.scan_common import check_cc, ts_comparisons, true_succ, check_active_edges
 
 
 def run(ctx):
@@ -150,7 +150,8 @@ def run(ctx):
     ctx.check('C07.O2', len(tf) == 1 and const_value(tf[0]['args'][0]) == 0, fi.name, 'Finish:non-blocking', fi.loc, 'Finish() waits without WNOHANG')
     rab = prog.fn('RealCommandRunner::Abort')
     ctx.check('C07.O2', any(True for _ in rab.calls('SubprocessSet::Clear')), rab.name, 'Abort:no-Clear', rab.loc, 'Abort() clears the subprocess set')
-    ctx.floor('C07.O2', 20)
+    check_active_edges(ctx, 'C07.O2', prog)
+    ctx.floor('C07.O2', 22)
 
     # ---- W1: async-signal-safe handlers --------------------------------------------------------------
     R('C07.W1', 'W', 'functions installed as signal handlers contain no calls: they only store to a '
